@@ -128,7 +128,9 @@ impl<T: Clone + Copy + Number + Signed + PartialOrd> Banded<T> {
             }
             for i in k + 1..l {
                 //dum = au[ i ][ 0 ] / au[ k ][ 0 ];
-                dum = au[(i, 0)] / au[(k, 0)];
+                // A zero pivot means every candidate in this column is zero (singular
+                // matrix): there is nothing to eliminate, the row is only shifted
+                dum = if au[(k, 0)] == T::zero() { T::zero() } else { au[(i, 0)] / au[(k, 0)] };
                 //al[ k ][ i - k - 1 ] = dum;
                 al[(k, i - k - 1)] = dum;
                 for j in 1..mm {
